@@ -74,14 +74,27 @@ def quoting(ctx):
             has_policy_without_empty = True
     r.idiom("Q2", decided_in is not None, "empty-value-quoted", f.where,
             "an empty attribute value is not always quoted: `a=` followed by `>` or another attribute is read differently",
-            wrong=[(has_policy_without_empty and not any("len(" in norm(n.ast) or norm(n.ast).startswith("not ") for fn in f.module.all_functions
-                                                          if "quote_attr_values" in norm(fn.node) for n in ast.walk(fn.node) if isinstance(n, (ast.Compare, ast.UnaryOp))), None)],
+            wrong=[(has_policy_without_empty and not _tests_emptiness(f.module), None)],
             detail={"decided_in": decided_in})
     # the policies map to the classes
     allsrc = " ".join(" ".join(norm(fn.node).split()) for fn in f.module.all_functions)
     r.idiom("Q2", "== 'spec'" in allsrc and "_quoteAttributeSpec.search(" in allsrc and "== 'legacy'" in allsrc and "_quoteAttributeLegacy.search(" in allsrc,
             "policy-wiring", f.where, "the quoting policies no longer consult their regular expressions",
             wrong=[("_quoteAttributeSpec.search(" not in allsrc or "_quoteAttributeLegacy.search(" not in allsrc, None)])
+
+
+def _tests_emptiness(mod):
+    """does any function that implements the quoting policy test the value it hands to the quoting regexes for emptiness?"""
+    vars_ = set()
+    fns = [fn for fn in mod.all_functions if "quote_attr_values" in norm(fn.node)]
+    for fn in fns:
+        for c in ast.walk(fn.node):
+            if isinstance(c, ast.Call) and isinstance(c.func, ast.Attribute) and c.func.attr == "search" and "_quoteAttribute" in norm(c.func.value) and c.args:
+                vars_.add(norm(c.args[0]))
+    pats = set()
+    for v in vars_:
+        pats |= {"len(%s) == 0" % v, "not %s" % v, "%s == ''" % v, "len(%s) < 1" % v, "not len(%s)" % v, "0 == len(%s)" % v, "'' == %s" % v}
+    return any(norm(n) in pats for fn in fns for n in ast.walk(fn.node) if isinstance(n, (ast.Compare, ast.UnaryOp)))
 
 
 def follow(ctx):
